@@ -57,6 +57,12 @@ CLAIMED["C19"] = dict(
    technique="Lean 4 inductive invariant + pointwise lemmas over a hand-written model + exhaustive small-scope correspondence on the real kernel",
    design="§6 C19")
 
+CLAIMED["C12"] = dict(
+   text="Lean 4 theorems about the computed wait for every timeout, deadline and instant: eff_min, eff_le_user, eff_le_deadline (no oversleeping of the limit), eff_ge_min (no spinning), eff_none_iff (unlimited only with timeout None and no armed timer), eff_zero, expired_zero, synthetic_zero, plus the bridge lemma to the `match (timeout, next_timeout)` of Poll::poll regenerated from src/sys.rs on every run. On the real loop the value handed to the poller is recorded by a hook for timeout {0, short, long, None} x timers {none, earlier, equal, later, expired, unrepresentable} x idle sources incl. closed peers and compared exactly; the next-deadline input is checked against the earliest armed timer; the elapsed wall time is measured.",
+   note="PARTIAL by nature: the theorem decides the computed timeout (and is tied to the source by translation); the actual sleep is the kernel's and is measured with tolerances (>= eff - 1 ms, <= eff + 250 ms; a miss must reproduce 3/3), not proved. Trusted: Lean kernel + standard axioms, tools/extract.py, the record_poll hook, Instant monotonicity.",
+   technique="Lean 4 proof over a model bridged to a source-regenerated definition + hook-recorded exact comparison + wall-clock measurement",
+   design="§6 C12")
+
 PENDING_REASON = "not claimed yet in this revision: model and theorems are being built (see DESIGN.md §12 build order); no check is registered rather than registering an unsound one"
 
 def main():
